@@ -821,6 +821,8 @@ theorem stepOp_inv {r : Realm} (hi : RealmInv r) (op : Op) :
   cases op with
   | join k isLocal details roles cap =>
     rw [stepOp_join]
+    split
+    · exact ⟨hi, rfl⟩
     refine ⟨?_, rfl⟩
     have hmono : ∀ k', r.isClient k' →
         ({ r with clients := r.clients ++ [{ key := k, details := details, roles := roles, isLocal := isLocal, cap := cap }],
@@ -846,6 +848,8 @@ theorem stepOp_inv {r : Realm} (hi : RealmInv r) (op : Op) :
         (fun c => by split <;> rfl) (fun c hc => by split <;> first | rfl | exact hc) rfl rfl rfl) rfl, rfl⟩
   | drop k =>
     rw [stepOp_drop]
+    split
+    · exact ⟨hi, rfl⟩
     split
     · exact ⟨hi, rfl⟩
     · exact ⟨hi.with_tasks _ _ (leaveTask_ok _ _), rfl⟩
